@@ -7,10 +7,14 @@ Import ListNotations.
 Lemma filter_all_true {A} (l : list A) : List.filter (fun _ => true) l = l.
 Proof. induction l as [|x l IH]; cbn [List.filter]; [reflexivity | now rewrite IH]. Qed.
 
+(** the filter sees the line without its line terminator ([chomp]); the operators get the line as read *)
 Theorem run_pipeline_filter : forall f stages lines,
-  run_pipeline f stages lines = run_pipeline (fun _ => true) stages (List.filter f lines).
+  run_pipeline f stages lines =
+  run_pipeline (fun _ => true) stages (List.filter (fun l => f (chomp l)) lines).
 Proof.
-  intros f stages lines. unfold run_pipeline. rewrite filter_all_true. reflexivity.
+  intros f stages lines. unfold run_pipeline.
+  change (fun l : str => (fun _ : str => true) (chomp l)) with (fun _ : str => true).
+  rewrite filter_all_true. reflexivity.
 Qed.
 
 (** *** parse *)
@@ -250,15 +254,36 @@ Proof.
 Qed.
 
 (** *** logfmt *)
+(** the pair without key and without value: what the parser returns for text holding no pair at all *)
+Definition lf_empty_pair (kv : str * option str) : bool :=
+  match fst kv, snd kv with [], None => true | _, _ => false end.
+
+Lemma lf_empty_pair_iff : forall kv, lf_empty_pair kv = true <-> kv = ([], None).
+Proof.
+  intros [k v]. unfold lf_empty_pair. cbn [fst snd]. split.
+  - destruct k; [|discriminate]. destruct v; [discriminate|reflexivity].
+  - intros H. injection H as -> ->. reflexivity.
+Qed.
+
+(** every pair other than the empty one becomes a field; the empty pair is not stored (fix d4c6bb8) *)
 Lemma logfmt_op_fields : forall from r inp,
   get_input r from = Ok inp ->
   logfmt_op from r =
   Ok (Some (fold_left (fun acc kv => match snd kv with
                                      | None => rput (fst kv) VNone acc
                                      | Some v => rput (fst kv) (from_string v) acc
-                                     end) (logfmt_parse (trim_end inp)) r)).
+                                     end)
+                      (List.filter (fun kv => negb (lf_empty_pair kv)) (logfmt_parse (trim_end inp))) r)).
 Proof.
   intros from r inp Hi. unfold logfmt_op. rewrite Hi. reflexivity.
+Qed.
+
+(** text without any pair (e.g. an empty line) leaves the row as it is *)
+Lemma logfmt_op_no_pair : forall from r inp,
+  get_input r from = Ok inp -> logfmt_parse (trim_end inp) = [([], None)] ->
+  logfmt_op from r = Ok (Some r).
+Proof.
+  intros from r inp Hi Hp. rewrite (logfmt_op_fields from r inp Hi), Hp. reflexivity.
 Qed.
 
 (** *** text output *)
